@@ -130,6 +130,10 @@ class CorralLearner(Learner):
             while True:
 
                 x = (l+r)/2
+
+                if x == l or x == r:
+                    return None #the interval can't be split any further
+
                 y = f(x)
 
                 if round(y,precision) == 1:
@@ -142,22 +146,18 @@ class CorralLearner(Learner):
                     r = x
 
         def find_root_of_1():
-            brackets = list(sorted(filter(lambda z: min_loss <= z and z <= max_loss, set(denom_zeros + [min_loss, max_loss]))))
-
-            for l_brack, r_brack in zip(brackets[:-1], brackets[1:]):
-
-                if (f(l_brack+.00001)-1) * (f(r_brack-.00001)-1) >= 0:
-                    continue
-                else:
-                    # we use binary search because newtons
-                    # method can overshoot our objective
-                    return binary_search(l_brack, r_brack)
+            # Every updated probability 1/((1/p)+eta*(loss-l)) has to be positive so the root we are looking for is
+            # always to the left of the smallest denominator zero. On [min_loss, smallest zero) f is continuous and
+            # strictly increasing, f(min_loss) <= sum(ps) = 1 and f >= 1 at the right end (f(max_loss) >= sum(ps)
+            # or f -> inf at the zero). Probing the ends with a fixed offset (as was done before) steps over the
+            # root when f is steep (large eta) and then either finds no root or one with negative probabilities.
+            return binary_search(min_loss, min(max_loss, min(denom_zeros)))
 
         if min_loss == max_loss:
             lmbda = min_loss
         elif min_loss not in denom_zeros and round(f(min_loss),precision) == 1:
             lmbda = min_loss
-        elif max_loss not in denom_zeros and round(f(max_loss),precision) == 1:
+        elif max_loss < min(denom_zeros) and round(f(max_loss),precision) == 1:
             lmbda = max_loss
         else:
             lmbda = find_root_of_1()
